@@ -22,7 +22,7 @@
 (*        ErrNotFound of a never published create; Rollback aborts its     *)
 (*        whole SQL transaction on any error                        (F8)   *)
 (*   AbandonKeepsDidRows   abandoning a create deletes the document        *)
-(*        versions but not the rows of table did                           *)
+(*        versions but not the rows of table did                    (F8b)  *)
 (*   OpsBuildOnPending     an operation is accepted while the subject      *)
 (*        still has change-log rows; it builds on the uncommitted version  *)
 (*   UpdatesDeactivated    update operations are accepted on a deactivated *)
@@ -202,7 +202,10 @@ Tx2(p) ==
        THEN /\ vers' = DropTx(vers, pc[p].tx)
             /\ log' = {l \in log : l.tx # pc[p].tx}
             /\ abandoned' = abandoned \cup {pc[p].tx}
-            /\ rows' = IF pc[p].op = "create" /\ ~AbandonKeepsDidRows THEN [rows EXCEPT ![pc[p].s] = {}] ELSE rows
+            \* the rows of table did go with their last version (deleteDIDWithoutDocuments): an abandoned create, or, with
+            \* OpsBuildOnPending, the abandoned operation that was built on a create which the sweep rolled back meanwhile
+            /\ rows' = IF ~AbandonKeepsDidRows /\ \A m \in Methods : DropTx(vers, pc[p].tx)[pc[p].s][m] = {}
+                        THEN [rows EXCEPT ![pc[p].s] = {}] ELSE rows
             /\ hist' = H([a |-> "Tx2", p |-> p, kind |-> "abandon"])
             /\ UNCHANGED retryOp
        ELSE /\ log' = {l \in log : l.tx # pc[p].tx}
@@ -243,17 +246,19 @@ SweepEffect ==
         abort == SweepAbortsOnUnpublishedCreate /\ \E l \in aged : l.m = "nuts" /\ NutsErr(l)
         \* a transaction is rolled back iff one of its aged rows is not committed (did:web always is)
         bad == {t \in txs : \E l \in aged : l.tx = t /\ l.m = "nuts" /\ ~NutsCommitted(l)}
-        \* prescriptive: rolling back a create also removes the rows of table did (ON DELETE CASCADE: every version and log row)
+        keep(s, m) == {v \in vers[s][m] : ~\E l \in aged : l.tx \in bad /\ l.s = s /\ l.m = m /\ l.tx = v.tx}
+        \* prescriptive: rolling back the last version of a DID also removes its row of table did (deleteDIDWithoutDocuments);
+        \* that is a rolled back create, or, with OpsBuildOnPending, also the operations that were built on it
         gone == IF AbandonKeepsDidRows THEN {}
-                ELSE {s \in Subjects : \E l \in aged : l.tx \in bad /\ l.s = s /\ l.typ = "created"} IN
+                ELSE {s \in Subjects : /\ \E l \in aged : l.tx \in bad /\ l.s = s
+                                       /\ \A m \in Methods : keep(s, m) = {}} IN
     /\ swept' = (aged = log)
     /\ IF abort
        THEN /\ UNCHANGED <<vers, log, abandoned, rows, pub>>
             /\ hist' = H([a |-> "Sweep", aborted |-> TRUE])
        ELSE \* only the versions named by the aged rows are deleted (rows of the same transaction are inserted together)
             /\ vers' = [s \in Subjects |-> [m \in Methods |->
-                          IF s \in gone THEN {}
-                          ELSE {v \in vers[s][m] : ~\E l \in aged : l.tx \in bad /\ l.s = s /\ l.m = m /\ l.tx = v.tx}]]
+                          IF s \in gone THEN {} ELSE keep(s, m)]]
             /\ log' = {l \in log : l.tx \notin txs /\ l.s \notin gone}
             /\ abandoned' = abandoned \cup bad \cup UNION {TxOf(s) : s \in gone}
             /\ rows' = [s \in Subjects |-> IF s \in gone THEN {} ELSE rows[s]]
